@@ -221,7 +221,7 @@ pub fn build(bins: &Binaries, repo: &Path, verif: &Path, thorough: bool, scratch
     }
 
     // verify tasks: problem generation only
-    let tasks: Vec<Task> = corpus::load(repo, verif);
+    let tasks: Vec<Task> = corpus::load(repo, verif).into_iter().filter(|t| !t.large).collect();
     for t in &tasks {
         let files: Vec<(String, String)> = t.files.iter().map(|f| (f.clone(), fs::read_to_string(t.dir.join(f)).unwrap_or_default())).collect();
         let mut combos: Vec<Vec<String>> = vec![];
